@@ -121,7 +121,9 @@ def call_pcdelta(inp, letters, variant, seed=None):
     seqs = make_coll(inp["ek"], inp["seqs"], letters, variant)
     seqs2 = make_coll(inp["ek"], inp["seqs2"], letters, variant) if inp["two"] else None
     if inp["edges"] == []:
-        return np.atleast_1d(prs.pcDelta(seqs, seqs2, bins=0))
+        if seed is not None:
+            np.random.seed(seed)
+        return np.atleast_1d(prs.pcDelta(seqs, seqs2, bins=0, **({"maxseqs": inp["ms"]} if inp["ms"] else {})))
     kw = dict(bins=(np.array(inp["edges"]) if variant % 2 else list(inp["edges"])), normalize=inp["norm"])
     if inp["edges"] == list(range(0, 25)):
         kw.pop("bins")                          # rely on the documented default
